@@ -33,19 +33,17 @@ META = {
         "correspondence of the assembled line with the implementation; model-independent CIF-vs-PDB search"
     ),
     "level_text": (
-        "Model = cif.atom_site AFTER the repairs fix_C10_P1..P4 (alt-loc column, chain from auth_asym_id, 4-wide atom "
-        "name, insertion-code column). Proved for ALL rows expressible as one PDB ATOM/HETATM record whose label atom "
-        "and residue names equal the author's, and for every library convention that hands '.'/'?' over as one of "
-        "'', '.', '?', None (the installed mmcif_pdbx 2.1.0 and verbatim readers): both readers succeed and return the "
-        "same atom - kind, serial, name, alt-loc, residue, chain, number, insertion code, coordinate texts "
-        "(C10_cif_eq_pdb_partial, C10_cif_eq_pdb_both_conventions), lifted to whole atom_site loops with one model and "
-        "with several models; the PDB-side spec round-trips for all expressible rows (C10_spec_roundtrip, full strength). "
-        "STILL PARTIAL: the full statement over every expressible row is refuted where label_atom_id <> auth_atom_id or "
-        "label_comp_id <> auth_comp_id (C10_label_atom_refuted, C10_label_comp_refuted, witnesses replayed on the real code; "
-        "known finding C10-F9), and the formal charge columns are not written (C10_formal_charge_field_dropped, C10-F8; not a "
-        "field the property names). Charges and radii (the pipeline after the readers) are NOT proved here: they are explored "
-        "by running the real pipeline on both encodings (search step); other versions of mmcif_pdbx are covered only through "
-        "the convention parameter (one emulated)."
+        "Model = cif.atom_site AFTER the repairs fix_C10_P1..P6. Proved at FULL strength for the readers: for EVERY "
+        "_atom_site row expressible as one PDB ATOM/HETATM record and every library convention that hands '.'/'?' over as "
+        "one of '', '.', '?', None (the installed mmcif_pdbx 2.1.0 and verbatim readers) the line cif.atom_site assembles "
+        "IS the PDB v3.3 record of the row, character for character (C10_cif_line_is_pdb_record), hence both readers "
+        "return the same atom in all 16 fields - alternate location, insertion code, four-character names, formal charge "
+        "included (C10_cif_eq_pdb, C10_cif_eq_pdb_agrees) - and whole atom_site loops with one model or several models "
+        "give one record per row in file order (C10_atom_site_single, C10_atom_site_models); the convention hypothesis "
+        "cannot be dropped (C10_mv_ok_needed). No refuted class is left. NOT proved here: charges and radii (the pipeline "
+        "after the readers) - explored by running the real pipeline on both encodings and composed with the ingest/print "
+        "models in E2E_CifClean; other versions of mmcif_pdbx are covered only through the convention parameter (one "
+        "emulated); values that are literally '.' or '?' (indistinguishable from missing markers) are outside the domain."
     ),
     "level_note": (
         "Trusted: Coq kernel+vm_compute; mmcif_pdbx tokenisation (rows are taken from its parse), float() "
@@ -58,14 +56,13 @@ META = {
 
 THEOREMS = [
     "C10_spec_roundtrip",
-    "C10_cif_eq_pdb_partial",
+    "C10_cif_line_is_pdb_record",
+    "C10_cif_eq_pdb",
+    "C10_cif_eq_pdb_agrees",
     "C10_cif_eq_pdb_both_conventions",
-    "C10_cif_full_partial",
-    "C10_atom_site_single_partial",
-    "C10_atom_site_models_partial",
-    "C10_label_comp_refuted",
-    "C10_label_atom_refuted",
-    "C10_formal_charge_field_dropped",
+    "C10_mv_ok_needed",
+    "C10_atom_site_single",
+    "C10_atom_site_models",
     "C10_guard_nonvacuous",
 ]
 
@@ -121,8 +118,9 @@ WITNESSES = {
     "w_comp": mkrow("HETATM", "478", "O", "O", ".", "WAT", "A", "?", "31.221", "16.581", "2.104", "1.00", "20.55", "?", "62", "HOH", "A", "O"),
     "w_atomname": mkrow("ATOM", "7", "C", "CA", ".", "LYS", "A", "?", "-10.123", "16.581", "2.104", "1.00", "20.55", "?", "12", "LYS", "A", "CA1"),
 }
-# w_plain .. w_label: witnesses of the classes repaired by fix_C10_P1..P4 - regression cases that must agree
-REPAIRED = ("w_plain", "w_alt", "w_name4", "w_ins", "w_wide", "w_occ", "w_label")
+# all of them were refutation witnesses before fix_C10_P1..P6: regression cases that must agree
+WITNESSES["w_noauth_values"] = mkrow("ATOM", "7", "C", "CA", ".", "LYS", "A", "?", "-10.123", "16.581", "2.104", "1.00", "20.55", "-2", "12", "?", "A", ".")
+ALLOWED_ABSENT = ("auth_atom_id", "auth_comp_id", "label_asym_id")  # optional / never read
 
 
 def cif_quote(s: str) -> str:
@@ -319,13 +317,23 @@ def pdb_charge_cols(t):
     return f"{abs(z)}{'+' if z > 0 else '-'}"
 
 
+def eff(r, name):
+    """the author's value when the row gives one, else the label value (PDB files carry the author's names)"""
+    a = r.get("auth_" + name)
+    return a if a not in (".", "?", None) else r.get("label_" + name)
+
+
+def without(r, absent):
+    return {k: (None if k in absent else v) for k, v in r.items()} if absent else r
+
+
 def pdb_line(r):
     """The line a PDB-archive style writer emits for the row (auth_* identifiers)."""
-    name, el = tokv(r["auth_atom_id"]), tokv(r["type_symbol"])
+    name, el = tokv(eff(r, "atom_id")), tokv(r["type_symbol"])
     nf = (" " + f"{name:<3s}") if (len(name) < 4 and len(el) < 2) else f"{name:<4s}"
     return (
         f"{tokv(r['group_PDB']):<6s}{tokv(r['id']):>5s} {nf}{tokv(r['label_alt_id']):<1s}"
-        f"{tokv(r['auth_comp_id']):>3s} {tokv(r['auth_asym_id']):<1s}{tokv(r['auth_seq_id']):>4s}"
+        f"{tokv(eff(r, 'comp_id')):>3s} {tokv(r['auth_asym_id']):<1s}{tokv(r['auth_seq_id']):>4s}"
         f"{tokv(r['pdbx_PDB_ins_code']):<1s}   "
         f"{tokv(r['Cartn_x']):>8s}{tokv(r['Cartn_y']):>8s}{tokv(r['Cartn_z']):>8s}"
         f"{tokv(r['occupancy']):>6s}{tokv(r['B_iso_or_equiv']):>6s}          {el:>2s}{pdb_charge_cols(r['pdbx_formal_charge'])}"
@@ -353,16 +361,18 @@ def okv(s, lo, hi):
 
 def expressible(r, absent=()):
     """The row denotes one PDB ATOM/HETATM record (independent restatement of the domain)."""
-    if absent:
+    if any(k not in ALLOWED_ABSENT for k in absent):
         return False
-    m = lambda t: t in (".", "?")  # noqa: E731
+    r = without(r, absent)
+    m = lambda t: t in (".", "?", None)  # noqa: E731
     t = lambda k: r[k]  # noqa: E731
+    nm, comp = eff(r, "atom_id"), eff(r, "comp_id")
     return (
         t("group_PDB") in ("ATOM", "HETATM")
         and not m(t("id")) and okv(t("id"), 1, 5) and is_ascii_int(t("id"))
-        and not m(t("auth_atom_id")) and okv(t("auth_atom_id"), 1, 4)
+        and not m(nm) and okv(nm, 1, 4)
         and (m(t("label_alt_id")) or okv(t("label_alt_id"), 1, 1))
-        and not m(t("auth_comp_id")) and okv(t("auth_comp_id"), 1, 3)
+        and not m(comp) and okv(comp, 1, 3)
         and not m(t("auth_asym_id")) and okv(t("auth_asym_id"), 1, 1)
         and not m(t("auth_seq_id")) and okv(t("auth_seq_id"), 1, 4) and is_ascii_int(t("auth_seq_id"))
         and (m(t("pdbx_PDB_ins_code")) or okv(t("pdbx_PDB_ins_code"), 1, 1))
@@ -374,29 +384,13 @@ def expressible(r, absent=()):
 
 
 def conditions(r, lib_alt=None):
-    """Which known defect classes of cif.atom_site the row falls in (from the row only;
-    independent of the code under test).  After fix_C10_P1..P4 only the label/auth names are left."""
-    c = []
-    for lab, auth in (("label_atom_id", "auth_atom_id"), ("label_comp_id", "auth_comp_id")):
-        if r[lab] != r[auth]:
-            c.append(f"{lab}-ne-{auth}")
-    return c
+    """Known defect classes of cif.atom_site the row falls in: none is left after fix_C10_P1..P6."""
+    return []
 
 
 def as_coded_line(r, lib_alt, lib_chg):
-    """DIAGNOSIS ONLY: the line the remaining known defects produce from the standard pieces -
-    the PDB record with label_atom_id / label_comp_id and without the formal charge."""
-    g = r["group_PDB"]
-    name, el = r["label_atom_id"], r["type_symbol"]
-    nf = (" " + f"{name:<3s}") if (len(name) < 4 and len(el) < 2) else f"{name:<4s}"
-    miss = ("", ".", "?", None)
-    return (
-        f"{g:<6s}{r['id']:>5s} {nf}" + (" " if lib_alt in miss else lib_alt)
-        + f"{r['label_comp_id']:>3s} {r['auth_asym_id']:>1s}{r['auth_seq_id']:>4s}"
-        + (" " if r["pdbx_PDB_ins_code"] in miss else r["pdbx_PDB_ins_code"]) + "   "
-        + f"{r['Cartn_x']:>8s}{r['Cartn_y']:>8s}{r['Cartn_z']:>8s}{r['occupancy']:>6s}{r['B_iso_or_equiv']:>6s}"
-        + " " * 10 + f"{el:>2s}" + ("  " if lib_chg == "?" else "")
-    )
+    """DIAGNOSIS ONLY: with no known defect left the assembled line must be the PDB record itself."""
+    return pdb_line(r)
 
 
 def lib_of(tok, conv):
@@ -424,10 +418,8 @@ def diagnose(r, lib_alt, lib_chg, cif_res, pdb_res, cif_line):
         fields = f"pdb-raises:{pdb_res}"
     else:
         names = PRIMARY + ("occupancy", "temp_factor", "seg_id", "element", "formal_charge")
-        fields = ",".join(n for n, a, b in zip(names, cif_res, pdb_res) if a != b and n in PRIMARY + ("formal_charge",))
+        fields = ",".join(n for n, a, b in zip(names, cif_res, pdb_res) if a != b)
     explained = "as-coded" if (cif_line is not None and cif_line == as_coded_line(r, lib_alt, lib_chg)) else "no"
-    if fields == "formal_charge" and not conds:
-        conds = ["formal-charge-present"]
     sig = {"site": SITE, "condition": "+".join(conds) or "none", "explained": explained, "fields": fields}
     return sig, f"mmCIF row and its PDB record are read differently ({sig['condition']}; differing: {fields})"
 
@@ -444,14 +436,15 @@ def numeric(r):
 COORD_SLICES = ((30, 38), (38, 46), (46, 54))
 
 
-def row_oracle(r, conv):
+def row_oracle(r, conv, absent=()):
     """Model-independent check of one expressible row with numeric coordinates: the row as a one-row
     mmCIF loop through the real mmcif_pdbx + cif.atom_site, and as a PDB v3.3 line through the real
     pdb.ATOM / pdb.HETATM.  -> dict(agree, text_agree, sig, what, detail)"""
-    blk = load_block(cif_loop_text([r]), conv)
+    blk = load_block(cif_loop_text([r], absent), conv)
     lib_alt, lib_chg = lib_value(blk, "label_alt_id", 0), lib_value(blk, "pdbx_formal_charge", 0)
     out = impl_atom_site(blk)
     kind = r["group_PDB"]
+    r = without(r, absent)
     pline = pdb_line(r)
     pres = impl_parse_pdb_line(kind, pline)
     cap = [c for c in out["cap"] if c[0] in ("ATOM", "HETATM")]
@@ -465,7 +458,7 @@ def row_oracle(r, conv):
         cres = arecs[0][2:]
     both = (not isinstance(cres, str)) and (not isinstance(pres, str))
     prim = both and cres[:11] == pres[:11]
-    agree = prim and cres[15] == pres[15]
+    agree = prim and tuple(cres) == tuple(pres)  # all 16 fields, formal charge included
     text_agree = prim and all(cline[a:b].strip() == pline[a:b].strip() for a, b in COORD_SLICES)
     detail = {"cif_line": cline, "pdb_line": pline, "cif_fields": list(cres) if both or not isinstance(cres, str) else cres,
               "pdb_fields": list(pres) if not isinstance(pres, str) else pres}
@@ -515,7 +508,7 @@ def multi_oracle(rows, conv):
         else:
             caps = [c for c in out["cap"] if c[0] in ("ATOM", "HETATM")]
             ct, cl = out["exn"], (caps[k][1] if k < len(caps) else None)
-        if isinstance(ct, str) or isinstance(pt, str) or ct[:11] != pt[:11]:
+        if isinstance(ct, str) or isinstance(pt, str) or tuple(ct) != tuple(pt):
             sig, what = diagnose(r, lib_alt, lib_chg, ct, pt, cl)
             detail.update(row=r, cif_line=cl)
             return sig, what, detail
@@ -578,8 +571,11 @@ def gen_row(rng, cls=None, model="1"):
     b = rng.choice(["20.55", "5.10", "100.00", "0.00", "99.99", "7.5"])
     alt = rng.choice(["."] * 11 + ["?"]) if cls != "alt" else rng.choice("ABC12")
     ins = rng.choice(["?", "?", "."]) if cls != "ins" else rng.choice("ABZ")
-    chg = rng.choice(["?", "?", "?", ".", "0"]) if cls != "charge" else rng.choice(["1", "-1", "2", "-2", "+1"])
+    chg = rng.choice(["?", "?", "?", ".", "0"]) if cls != "charge" else rng.choice(["1", "-1", "2", "-2", "+1", "9", "-9", "10", "-10", "0", "3", "1a", "+-1"])
     r = mkrow(grp, sid, element_of(name), name, alt, comp, asym, ins, x, y, z, occ, b, chg, seq, comp, asym, name, model)
+    if cls == "noauth":
+        for k_ in rng.choice([("auth_atom_id",), ("auth_comp_id",), ("auth_atom_id", "auth_comp_id")]):
+            r[k_] = rng.choice(["?", "."])
     if cls == "label":
         which = rng.choice(["asym", "asym", "comp", "atom"])
         if which == "asym":
@@ -612,13 +608,13 @@ def gen_case(rng, k):
             rng.shuffle(rows)
     else:
         for _ in range(n):
-            cls = rng.choice([None] * 8 + ["alt", "alt", "name4", "name4", "ins", "wide", "occ", "label", "charge"])
+            cls = rng.choice([None] * 8 + ["alt", "alt", "name4", "name4", "ins", "wide", "occ", "label", "label", "charge", "charge", "noauth"])
             rows.append(gen_row(rng, cls))
     if 0.14 <= u < 0.27:
         mal = rng.choice(MALFORMED)
         r = rng.choice(rows)
         if mal == "absent":
-            absent = (rng.choice([k_ for k_ in MROW if k_ not in ("auth_comp_id", "auth_atom_id", "auth_asym_id", "pdbx_PDB_ins_code")]),)
+            absent = (rng.choice(list(MROW)),) if rng.random() < 0.6 else tuple(rng.sample(["auth_atom_id", "auth_comp_id", "label_asym_id"], rng.choice([1, 2])))
         elif mal == "none-mandatory":
             r[rng.choice(["id", "label_atom_id", "label_comp_id", "label_asym_id", "auth_seq_id", "Cartn_x", "occupancy", "type_symbol", "B_iso_or_equiv"])] = rng.choice(["?", "."])
         elif mal == "bad-int":
@@ -876,7 +872,7 @@ def e2e_texts(ctx, ptxt, ctxt, rows, conv, args, run_pipeline, detail):
         return {"site": "cif.read_cif", "condition": "record-count", "explained": "no", "fields": f"{len(crecs)}!={len(precs)}"}, "different number of coordinate records from mmCIF and PDB", detail
     for r, c, p in zip(rows, crecs, precs):
         ct, pt = rec_tuple(c), rec_tuple(p)
-        if ct[:11] != pt[:11]:
+        if ct != pt:
             sig, what = diagnose(r, lib_of(r["label_alt_id"], conv), lib_of(r["pdbx_formal_charge"], conv), ct, pt, c.original_text)
             detail.update(row=r, cif_line=c.original_text, pdb_line=p.original_text)
             return sig, what, detail
@@ -963,14 +959,14 @@ def run(ctx):
         # the model's verdicts against the real readers (guard => agreement; agreesb = observed agreement)
         nverd = 0
         for c, im, mo in zip(cases, impl, mouts):
-            if isinstance(im, Exception) or c["absent"] or c["multi"]:
+            if isinstance(im, Exception) or any(k_ not in ALLOWED_ABSENT for k_ in c["absent"]) or c["multi"]:
                 continue
             bits = mo.split("@@")[2].split("@") if mo.count("@@") == 2 else []
             for r, b in zip(c["rows"], bits):
                 if len(b) != 3:
                     continue
                 m_expr, m_guard, m_agree = (ch == "1" for ch in b)
-                p_expr = expressible(r)
+                p_expr = expressible(r, tuple(c["absent"]))
                 if m_expr != p_expr:
                     corr_broken = True
                     ctx.cov["correspondence_disagreements"] += 1
@@ -979,7 +975,7 @@ def run(ctx):
                 if not p_expr or not numeric(r):
                     continue
                 nverd += 1
-                res = row_oracle(r, c["conv"])
+                res = row_oracle(r, c["conv"], tuple(c["absent"]))
                 # the model compares coordinate TEXT (float() is an oracle there): compare like with like
                 observed = res["text_agree"]
                 if m_agree != observed or (m_guard and not res["primary_agree"]):
@@ -1036,31 +1032,37 @@ def run(ctx):
     escalate = (not ok) or corr_broken
     srows = []
     for name, r in WITNESSES.items():
-        srows.append((name, r))
+        srows.append((name, r, ()))
     for c in corpus:
         for r in c["rows"]:
-            if not c.get("absent"):
-                srows.append(("corpus", r))
+            srows.append(("corpus", r, tuple(c.get("absent", ()))))
     for r in disagree_rows[:200]:
-        srows.append(("disagreeing", r))
+        srows.append(("disagreeing", r, ()))
     nsearch = (20000 if ctx.thorough else 5000) if escalate else (6000 if ctx.thorough else 700)
-    classes = [None, None, None, None, "alt", "name4", "ins", "wide", "occ", "label", "charge"]
+    classes = [None, None, None, None, "alt", "name4", "ins", "wide", "occ", "label", "charge", "noauth"]
     for k in range(nsearch):
-        srows.append(("gen", gen_row(ctx.rng, classes[k % len(classes)])))
+        srows.append(("gen", gen_row(ctx.rng, classes[k % len(classes)]), None))
     nfail = 0
-    for origin, r in srows:
-        if not expressible(r) or not numeric(r):
+    for origin, r, absent in srows:
+        # non-archive files: the optional auth_atom_id / auth_comp_id columns (and the unread label_asym_id) may be absent
+        if absent is None:
+            absent = ()
+        if origin == "gen" and ctx.rng.random() < 0.15:
+            absent = tuple(sorted(ctx.rng.sample(list(ALLOWED_ABSENT), ctx.rng.choice([1, 2, 3]))))
+        if not expressible(r, absent) or not numeric(r):
             ctx.evaluated("outside-domain", False)
             continue
         for conv in CONVS:
-            res = row_oracle(r, conv)
-            key = (conv, tuple(conditions(r, lib_of(r["label_alt_id"], conv))), r["group_PDB"], len(r["auth_atom_id"]), len(r["auth_comp_id"]),
+            res = row_oracle(r, conv, absent)
+            key = (conv, absent, r["group_PDB"], len(eff(without(r, absent), "atom_id")), len(eff(without(r, absent), "comp_id")),
+                   r["label_atom_id"] == r["auth_atom_id"], r["label_comp_id"] == r["auth_comp_id"], r["label_alt_id"] in (".", "?"),
+                   r["pdbx_PDB_ins_code"] in (".", "?"), r["pdbx_formal_charge"],
                    len(r["auth_seq_id"]), max(len(r[k]) for k in ("Cartn_x", "Cartn_y", "Cartn_z")), len(r["occupancy"]))
             ctx.evaluated(key, True)
             ctx.count(f"search:{conv}:" + ("agree" if res["agree"] else "differ:" + res["sig"]["condition"]))
             if not res["agree"]:
                 nfail += 1
-                ctx.fail(res["sig"], res["what"], {"kind": "row", "row": r, "conv": conv, "origin": origin, **res["detail"]})
+                ctx.fail(res["sig"], res["what"], {"kind": "row", "row": r, "absent": list(absent), "conv": conv, "origin": origin, **res["detail"]})
 
     # several models
     nmulti = (1500 if ctx.thorough else 400) if escalate else (600 if ctx.thorough else 120)
@@ -1070,7 +1072,7 @@ def run(ctx):
         rows = []
         for m in labels:
             for _ in range(ctx.rng.choice([1, 2])):
-                rows.append(gen_row(ctx.rng, ctx.rng.choice([None] * 10 + ["alt", "ins"]), m))
+                rows.append(gen_row(ctx.rng, ctx.rng.choice([None] * 6 + ["alt", "ins", "charge", "charge", "label", "noauth", "name4"]), m))
         if ctx.rng.random() < 0.25:
             ctx.rng.shuffle(rows)
         if not all(expressible(r) and numeric(r) for r in rows):
@@ -1165,7 +1167,7 @@ def replay(ctx, data):
     logging.getLogger("pdb2pqr").setLevel(logging.CRITICAL)
     case = data.get("case") or {}
     if case.get("kind") == "row":
-        res = row_oracle(case["row"], case["conv"])
+        res = row_oracle(case["row"], case["conv"], tuple(case.get("absent", ())))
         if res["agree"]:
             print("replay: passes (mmCIF row and PDB record read identically)")
             return 0
